@@ -2,7 +2,7 @@
 # Runs the pinned test suite of /repo (guard off) and compares with the stable-pass list of /root/.vp/BASELINE.json.
 # Output: work/suite.json (go test -json), summary on stdout. Exit 0 iff every stable test passed.
 cd /repo || exit 2
-export GOFLAGS=-mod=mod GOPROXY=off GOSUMDB=off
+export GOFLAGS=-mod=mod GOPROXY=off
 out=/verif/work/suite.json
 go test -mod=mod -json -vet=off -count=1 -timeout 25m ./... > $out 2>/verif/work/suite.err
 python3 - "$out" <<'PY'
